@@ -96,18 +96,20 @@ impl Tr {
 
 /// Entry point of the `fcv-tr` helper (the fcv binary invoked under that name).
 /// `fcv-tr <op> [-i IN] [-o OUT] [--inplace FILE]`; without arguments it exits at once.
-pub fn helper_main(args: &[String]) -> i32 {
+pub fn helper_main(args: &[OsString]) -> i32 {
     use std::io::{Read, Write};
     if args.len() < 2 {
         return 0;
     }
-    let opname = args[1].as_str();
-    let mut input: Option<String> = None;
-    let mut output: Option<String> = None;
-    let mut inplace: Option<String> = None;
+    let opname_s = args[1].to_string_lossy().to_string();
+    let opname = opname_s.as_str();
+    let mut input: Option<OsString> = None;
+    let mut output: Option<OsString> = None;
+    let mut inplace: Option<OsString> = None;
+    let mut quiet = false;
     let mut i = 2;
     while i < args.len() {
-        match args[i].as_str() {
+        match args[i].to_string_lossy().as_ref() {
             "-i" => {
                 input = args.get(i + 1).cloned();
                 i += 2
@@ -119,6 +121,10 @@ pub fn helper_main(args: &[String]) -> i32 {
             "--inplace" => {
                 inplace = args.get(i + 1).cloned();
                 i += 2
+            }
+            "-q" => {
+                quiet = true;
+                i += 1
             }
             _ => i += 1,
         }
@@ -152,6 +158,9 @@ pub fn helper_main(args: &[String]) -> i32 {
         return 0;
     }
     let out = Tr { op, io: TrIo::Pipe }.apply(&data);
+    if quiet {
+        return 0;
+    }
     let w = if let Some(p) = inplace {
         std::fs::write(p, &out)
     } else if let Some(p) = output {
